@@ -41,9 +41,11 @@ func (n NativeAppendFn) Call(i *Interpreter, arguments []interface{}) (interface
 		return nil, fmt.Errorf("append function only works on arrays")
 	}
 	// Append all other arguments to the array
-	array = append(array, arguments[1:]...)
+	result := make([]interface{}, 0, len(array)+len(arguments)-1)
+	result = append(result, array...)
+	result = append(result, arguments[1:]...)
 
-	return array, nil
+	return result, nil
 }
 
 func (n NativeAppendFn) Arity() int {
